@@ -12,6 +12,8 @@ legs to_a and from_b of the same module: expected(a -> b)(x) = from_b(to_a(x)).
                      copying forms leave their argument unchanged (frame condition on the input buffer)
   quantities         Q(v, u).Value() = to_u(v);  Q.Value(u), Q.StaticValue<u>() = from_u;  Q::Create<u>(v) = to_u(v)
   read-back          Q(v, u).Value(u) and Convert(x, u, u) within 16 ulps of v (ROUND; two roundings by design)
+The proofs are of bit-identity (stronger than the property's "within one ulp"); a solver counterexample is reported as a
+violation only when its native replay differs by MORE than one ulp, as the property allows.
 """
 import sys
 import z3
@@ -52,12 +54,12 @@ def generate(inv, tb, T, quantities_of):
                     E, E, names[o_], E, names[d_]), flatten=False)
                 ws.append(w)
                 leg[(d, k)] = w.name
-        rt = H.Wrapper('w_rt_' + tag, T, 1, T, 1, 'out[0] = PhQ::Convert(in[0], static_cast<%s>(iin[0]), static_cast<%s>(iin[1]));' % (E, E), n_iin=2, flatten=False)
+        rt = H.Wrapper('w_rt_' + tag, T, 1, T, 1, 'out[0] = PhQ::Convert(in[0], static_cast<%s>(iin[0]), static_cast<%s>(iin[1]));' % (E, E), n_iin=2, flatten=False, meta={'iin_domain': [units, units], 'max_paths': 20000})
         ws.append(rt)
         base = {'q': q, 'legs': {'%s:%d' % k: v for k, v in leg.items()}, 'units': units, 'std': std, 'names': {str(k): v for k, v in names.items()}}
         obs.append(dict(base, id='%s run-time scalar Convert, all ordered unit pairs [%s]' % (q, ct), kind='runtime', w=rt.name))
         # container forms for the pairs (a->b), (std->b), (a->std)
-        for (f, t_) in ((a, b), (std, b), (a, std), (a, a)):
+        for (f, t_) in (((a, b), (a, std)) if core.tier() == 'quick' else ((a, b), (std, b), (a, std), (a, a))):
             uf, ut = '%s::%s' % (E, names[f]), '%s::%s' % (E, names[t_])
             pid = '%s %s->%s' % (q, names[f], names[t_])
             for n, cls in ((1, 'array'), (2, 'array'), (3, 'array'), (6, 'array'), (9, 'array'), (2, 'PlanarVector'), (3, 'Vector'), (6, 'SymmetricDyad'), (9, 'Dyad')):
@@ -156,8 +158,27 @@ def one(ctx, T, d):
                 continue
             keys = path_keys(p.pc, d)
             if keys is None:
-                o.reason = 'cannot read the unit pair off a path condition'
-                return
+                # the path does not pin both units (e.g. an early return): enumerate the pairs consistent with it
+                if p.out[0] is None:
+                    o.reason = 'path without result'
+                    return
+                for f in d['units']:
+                    for t_ in d['units']:
+                        sub = {'k0': tm.ic('i64', f), 'k1': tm.ic('i64', t_)}
+                        cs = [tm.substitute(c, sub) for c in p.pc]
+                        if any(tm.is_ic(c) and c.args[0] == 0 for c in cs):
+                            continue
+                        seen.add((f, t_))
+                        exp = expected(ctx, d, f, t_, T, x0)
+                        if exp is None:
+                            o.reason = 'missing leg term'
+                            return
+                        got = tm.substitute(p.out[0], sub)
+                        if exp is not got:
+                            cz = [it.ev(c) for c in cs if not tm.is_ic(c)]
+                            bad.append(z3.And(z3.Extract(7, 0, k0) == f, z3.Extract(7, 0, k1) == t_, *(cz + [modes.smt_ne(it.ev(exp), it.ev(got))])))
+                npairs += 1
+                continue
             f, t_ = keys
             seen.add((f, t_))
             exp = expected(ctx, d, f, t_, T, x0)
@@ -202,7 +223,7 @@ def one(ctx, T, d):
             o.verdict = 'discharged'
             o.syntactic = True
             return
-        ctx.bit_equal(o, res.out, exp, w, key=o.oid, replay=ctx.native_term_replay(w, exp))
+        ctx.bit_equal(o, res.out, exp, w, key=o.oid, replay=ctx.native_term_replay(w, exp, ulps=1))
         return
     if d['kind'] == 'quantity':
         n = d['n']
@@ -230,7 +251,7 @@ def one(ctx, T, d):
             o.reason = 'possible UB: %s %s' % (res.ub[0][1], res.ub[0][2])
             flag_ub(ctx, o, res, w)
             return
-        ctx.bit_equal(o, res.out, exp, w, key=o.oid, replay=ctx.native_term_replay(w, exp))
+        ctx.bit_equal(o, res.out, exp, w, key=o.oid, replay=ctx.native_term_replay(w, exp, ulps=1))
 
 
 def flag_ub(ctx, o, res, w):
@@ -278,7 +299,7 @@ def runtime_replay(ctx, w, d, T):
             v = ctx.unit.call_native(ctx.byname[d['legs']['to:%d' % f]], [v])[0][0]
         if t_ != d['std']:
             v = ctx.unit.call_native(ctx.byname[d['legs']['from:%d' % t_]], [v])[0][0]
-        return (not engine.same_float(o1[0], v)), 'Convert(%s, %s, %s) = %s but the static legs give %s' % (
+        return (not engine.close_float(o1[0], v, 1, T)), 'Convert(%s, %s, %s) = %s but the static legs give %s (more than one ulp apart)' % (
             core.hexf(xs[0]), d['names'].get(str(f), f), d['names'].get(str(t_), t_), core.hexf(o1[0]), core.hexf(v))
     rp.case = {'kind': 'observed', 'impl': w.name}
     return rp
@@ -320,7 +341,7 @@ def main():
     results = engine.run_units(specs, worker, work)
     engine.collect(rep, results)
     rep.bounds = {'numeric_types': types, 'obligations_generated': total, 'vector_sizes': [0, 1, 3], 'array_sizes': [1, 2, 3, 6, 9],
-                  'unit_pairs': 'scalar run-time path: all ordered pairs of every type (both units symbolic); containers and quantities: 4 representative pairs per type (non-standard/non-standard, standard/non-standard, non-standard/standard, same unit)',
+                  'unit_pairs': 'scalar run-time path: all ordered pairs of every type (both units symbolic); containers: representative pairs per type (quick: non-standard/non-standard and non-standard/standard; thorough adds standard/non-standard and same unit); quantities: one non-standard unit per quantity',
                   'inputs': 'all bit patterns of every component'}
     rep.assumptions = [
         'summaries: std::map(initializer_list) / find / at over an abstract table with libstdc++ node layout; operator new never fails; std::function, std::array, std::vector code itself is executed',
